@@ -609,6 +609,27 @@ def _local_alias_normal_form(tree):
     return ast.fix_missing_locations(tree)
 
 
+def _return_ifexp_normal_form(tree):
+    """`return a if c else b` is `if c: return a` / `else: return b`: the
+    two values are alternatives of one another on the statement graph."""
+    class T(ast.NodeTransformer):
+        def visit_Return(self, n):
+            v = n.value
+            if isinstance(v, ast.IfExp) and any(
+                    isinstance(x, ast.Call) for x in ast.walk(v.body)) and \
+                    any(isinstance(x, ast.Call) for x in ast.walk(v.orelse)):
+                a = ast.copy_location(ast.Return(value=v.body), n)
+                b = ast.copy_location(ast.Return(value=v.orelse), n)
+                new = ast.If(test=v.test, body=[self.visit_Return(a)],
+                             orelse=[self.visit_Return(b)])
+                return ast.copy_location(new, n)
+            return n
+
+        def visit_Lambda(self, n):
+            return n
+    return ast.fix_missing_locations(T().visit(tree))
+
+
 class FuncInfo:
     __slots__ = ('module', 'qualname', 'node', 'cls', 'parent_func',
                  'is_method')
@@ -674,11 +695,11 @@ class Module:
         self.path = path
         with open(path, encoding='utf-8') as f:
             self.src = f.read()
-        self.tree = _local_alias_normal_form(
+        self.tree = _return_ifexp_normal_form(_local_alias_normal_form(
             _import_time_decoration_normal_form(
                 _partial_constant_normal_form(_map_repeat_normal_form(
                     _operator_normal_form(
-                        ast.parse(self.src, filename=path))))))
+                        ast.parse(self.src, filename=path)))))))
         _attach_parents(self.tree)
         self.imports = {}     # local alias -> dotted target
         self.constants = {}   # top-level NAME = <expr>  (last assignment)
